@@ -34,17 +34,35 @@ def install() -> None:
         resource = kwargs.get('resource')
         namespace = kwargs.get('namespace')
         plural = getattr(resource, 'plural', None)
-        async for ev in orig_infinite_watch(**kwargs):
+        name = _loop_name()
+        how = 'exhausted'
+        inner = orig_infinite_watch(**kwargs)
+        try:
+            async for ev in inner:
+                sim = core.CURRENT
+                if sim is not None:
+                    if isinstance(ev, dict):
+                        obj = ev.get('object') or {}
+                        meta = obj.get('metadata') or {}
+                        sim.log('yield', name, plural, namespace, ev.get('type'),
+                                meta.get('uid'), meta.get('resourceVersion'), meta.get('name'))
+                    else:
+                        sim.log('yield', name, plural, namespace, 'LISTED', None, None, None)
+                yield ev
+        except GeneratorExit:
+            how = 'closed'
+            raise
+        except asyncio.CancelledError:
+            how = 'cancelled'
+            raise
+        except BaseException as e:
+            how = 'error:' + type(e).__name__
+            raise
+        finally:
             sim = core.CURRENT
             if sim is not None:
-                if isinstance(ev, dict):
-                    obj = ev.get('object') or {}
-                    meta = obj.get('metadata') or {}
-                    sim.log('yield', _loop_name(), plural, namespace, ev.get('type'),
-                            meta.get('uid'), meta.get('resourceVersion'), meta.get('name'))
-                else:
-                    sim.log('yield', _loop_name(), plural, namespace, 'LISTED', None, None, None)
-            yield ev
+                sim.log('watch-exit', name, plural, namespace, how)
+            await inner.aclose()
 
     watching.infinite_watch = tapped_infinite_watch  # type: ignore[assignment]
 
